@@ -9,6 +9,8 @@
 #include <sys/syscall.h>
 #include <sys/wait.h>
 #include <sys/personality.h>
+#include <poll.h>
+#include <sanitizer/allocator_interface.h>
 #include <exception>
 
 // Sanitizer options are compiled in so that every way of starting a worker gets them.
@@ -155,35 +157,80 @@ static void RunOne(const WorkerDef & def, const PropDef & pd, const Plan & plan,
    WatchdogDisarm();
 }
 
-// fork-per-run: child executes and reports one line through a pipe
-static bool RunOneForked(const WorkerDef & def, const PropDef & pd, const Plan & plan, RunResult & r, int & crashStatus)
+// fork-per-run through a zygote.  The worker (aggregator) forks the zygote right after the warm-up; the zygote then does nothing but
+// read a fixed-size request, fork one child per run and report the child's wait status -- it never allocates, so every child, in a search
+// worker and in a fresh replay process alike, starts from the byte-identical (ASLR-free) address space and a run is a pure function of
+// (binary, plan), pointer hashing included.  The child generates or reads its plan itself and writes its result line to a shared pipe.
+struct ZReq {uint64_t seed; int mode; /* 0 = generate from seed, 1 = read plan file */ char planPath[1024];};
+struct ZStat {int status;};
+static int g_zCtrl = -1, g_zRes = -1, g_zStat = -1; static pid_t g_zPid = -1;
+static void StartZygote(const PropDef & pd)
 {
-   int fds[2]; if (pipe(fds) != 0) {perror("pipe"); exit(2);}
+   int ctrl[2], res[2], stat[2];
+   if ((pipe(ctrl) != 0)||(pipe(res) != 0)||(pipe(stat) != 0)) {perror("pipe"); exit(2);}
    fflush(stdout); fflush(stderr);
-   pid_t pid = fork();
-   if (pid < 0) {perror("fork"); exit(2);}
-   if (pid == 0)
+   const pid_t z = fork();
+   if (z < 0) {perror("fork"); exit(2);}
+   if (z == 0)
    {
-      close(fds[0]); g_resultFd = fds[1]; int savedMode = g_mode; g_mode = 3;
-      RunResult cr;
-      try {pd.exec(plan, cr);}
-      catch(const Violation & v) {cr.ok = false; cr.cls = v.cls; cr.detail = v.detail;}
-      WatchdogDisarm();
-      std::string line = std::string(cr.ok ? "OK " : "VIOL ") + U(cr.hash) + " " + (cr.nontrivial ? "1 " : "0 ") + U(cr.simMicros) + " " + (cr.ok ? "-" : cr.cls) + " " + Esc(cr.detail);
-      for (auto & kv : cr.stats.c) line += " " + kv.first + "=" + U(kv.second);
-      line += "\n";
-      (void) !write(fds[1], line.data(), line.size());
-      (void) savedMode;
-      _exit(0);
+      close(ctrl[1]); close(res[0]); close(stat[0]);
+      // fixed, high descriptor numbers for the harness's own pipes, so that the descriptors the system under test allocates (socket pairs
+      // of muscle Threads) are numbered identically in every process, whatever files the aggregator happened to have open
+      if ((dup2(ctrl[0], 240) < 0)||(dup2(res[1], 241) < 0)||(dup2(stat[1], 242) < 0)) _exit(8);
+      close(ctrl[0]); close(res[1]); close(stat[1]); ctrl[0] = 240; res[1] = 241; stat[1] = 242;
+      for (int fd=3; fd<240; fd++) close(fd);
+      while(true)
+      {
+         ZReq req; size_t got = 0;
+         while(got < sizeof(req)) {const ssize_t n = read(ctrl[0], ((char *) &req)+got, sizeof(req)-got); if (n <= 0) {if ((n < 0)&&(errno == EINTR)) continue; _exit(0);} got += (size_t) n;}
+         if (getenv("VSIM_DEBUG_ADDR")) {char b[96]; const int n = snprintf(b, sizeof(b), "ZYGOTE allocated=%zu\n", __sanitizer_get_current_allocated_bytes()); (void) !write(2, b, (size_t) n);}
+         const pid_t c = fork();
+         if (c < 0) _exit(9);
+         if (c == 0)
+         {
+            close(ctrl[0]); close(stat[1]);
+            g_resultFd = res[1]; g_mode = 3; g_curSeed = req.seed;
+            RunResult cr;
+            try
+            {
+               SetCurOp("generate / read plan");
+               if (getenv("VSIM_DEBUG_ADDR")) {char b[96]; const int n = snprintf(b, sizeof(b), "CHILD-before-gen allocated=%zu\n", __sanitizer_get_current_allocated_bytes()); (void) !write(2, b, (size_t) n);}
+               const Plan plan = (req.mode == 0) ? pd.gen(req.seed) : ReadPlanFile(req.planPath);
+               if (getenv("VSIM_DEBUG_ADDR")) {char b[96]; const int n = snprintf(b, sizeof(b), "CHILD-after-gen allocated=%zu lines=%zu\n", __sanitizer_get_current_allocated_bytes(), plan.size()); (void) !write(2, b, (size_t) n);}
+               pd.exec(plan, cr);
+            }
+            catch(const Violation & v) {cr.ok = false; cr.cls = v.cls; cr.detail = v.detail;}
+            WatchdogDisarm();
+            std::string line = std::string(cr.ok ? "OK " : "VIOL ") + U(cr.hash) + " " + (cr.nontrivial ? "1 " : "0 ") + U(cr.simMicros) + " " + (cr.ok ? "-" : cr.cls) + " " + Esc(cr.detail.substr(0, 3000));
+            for (auto & kv : cr.stats.c) line += " " + kv.first + "=" + U(kv.second);
+            line += "\n";
+            (void) !write(res[1], line.data(), line.size());
+            _exit(0);
+         }
+         ZStat zs; zs.status = 0; while((waitpid(c, &zs.status, 0) < 0)&&(errno == EINTR)) {}
+         (void) !write(stat[1], &zs, sizeof(zs));
+      }
    }
-   close(fds[1]);
-   std::string got; char buf[4096]; ssize_t n;
-   while((n = read(fds[0], buf, sizeof(buf))) != 0) {if (n < 0) {if (errno == EINTR) continue; break;} got.append(buf, (size_t) n);}
-   close(fds[0]);
-   int st = 0; while((waitpid(pid, &st, 0) < 0)&&(errno == EINTR)) {}
-   crashStatus = st;
+   close(ctrl[0]); close(res[1]); close(stat[1]);
+   g_zCtrl = ctrl[1]; g_zRes = res[0]; g_zStat = stat[0]; g_zPid = z;
+   (void) fcntl(g_zRes, F_SETFL, fcntl(g_zRes, F_GETFL) | O_NONBLOCK);
+}
+static bool RunOneForked(uint64_t seed, const char * optPlanPath, RunResult & r, int & crashStatus)
+{
+   ZReq req; memset(&req, 0, sizeof(req)); req.seed = seed; req.mode = optPlanPath ? 1 : 0; if (optPlanPath) snprintf(req.planPath, sizeof(req.planPath), "%s", optPlanPath);
+   if (write(g_zCtrl, &req, sizeof(req)) != (ssize_t) sizeof(req)) {perror("zygote write"); exit(2);}
+   std::string got; bool haveStat = false; ZStat zs; zs.status = 0;
+   while(!haveStat)
+   {
+      struct pollfd pf[2]; pf[0].fd = g_zRes; pf[0].events = POLLIN; pf[1].fd = g_zStat; pf[1].events = POLLIN;
+      if ((poll(pf, 2, 60000) < 0)&&(errno != EINTR)) break;
+      if (pf[0].revents & POLLIN) {char buf[4096]; ssize_t n; while((n = read(g_zRes, buf, sizeof(buf))) > 0) got.append(buf, (size_t) n);}
+      if (pf[1].revents & (POLLIN|POLLHUP)) {size_t g = 0; while(g < sizeof(zs)) {const ssize_t n = read(g_zStat, ((char *) &zs)+g, sizeof(zs)-g); if (n <= 0) {if ((n < 0)&&(errno == EINTR)) continue; fprintf(stderr, "zygote died\n"); exit(2);} g += (size_t) n;} haveStat = true;}
+   }
+   {char buf[4096]; ssize_t n; while((n = read(g_zRes, buf, sizeof(buf))) > 0) got.append(buf, (size_t) n);}   // whatever the child wrote before it exited
+   crashStatus = zs.status;
    if (got.empty()) return false;   // crashed without a report
-   std::vector<std::string> t = Split(got);
+   std::vector<std::string> t = Split(got.substr(0, got.find('\n')));
    if ((t.size() >= 2)&&(t[0] == "WD")) {r.ok = false; r.cls = t[1]; r.detail = (t.size() > 2) ? Unesc(t[2]) : ""; return true;}   // written by the child's watchdog / terminate handler
    if (t.size() < 6) return false;
    r.ok = (t[0] == "OK"); r.hash = ToU(t[1]); r.nontrivial = (t[2] == "1"); r.simMicros = ToU(t[3]); r.cls = (t[4] == "-") ? "" : t[4]; r.detail = Unesc(t[5]);
@@ -225,20 +272,20 @@ int WorkerMain(int argc, char ** argv, const WorkerDef & def)
       return 0;
    }
    if (def.warmup) def.warmup();
+   if (pd->forkPerRun) StartZygote(*pd);   // immediately after the warm-up, before anything whose allocations depend on the command line
    if (mode == "exec")
    {
       g_mode = 2;
-      Plan p = ReadPlanFile(argv[3]);
       RunResult r; int crash = 0;
       if (pd->forkPerRun)
       {
-         if (RunOneForked(def, *pd, p, r, crash) == false)
+         if (RunOneForked(0, argv[3], r, crash) == false)
          {
             printf("RESULT CRASH %d %d\n", WIFEXITED(crash) ? WEXITSTATUS(crash) : -1, WIFSIGNALED(crash) ? WTERMSIG(crash) : 0);
             return WIFEXITED(crash) ? WEXITSTATUS(crash) : 70;
          }
       }
-      else RunOne(def, *pd, p, r);
+      else {Plan p = ReadPlanFile(argv[3]); RunOne(def, *pd, p, r);}
       if (r.ok) printf("RESULT OK %016llx %d - -\n", (unsigned long long) r.hash, r.nontrivial ? 1 : 0);
            else printf("RESULT VIOL %016llx %d %s %s\n", (unsigned long long) r.hash, r.nontrivial ? 1 : 0, r.cls.c_str(), Esc(r.detail).c_str());
       printf("AGG {\"runs\":1,\"nontrivial\":%d,\"sim_us\":%llu,\"stats\":%s}\n", r.nontrivial ? 1 : 0, (unsigned long long) r.simMicros, r.stats.json().c_str());
@@ -267,11 +314,10 @@ int WorkerMain(int argc, char ** argv, const WorkerDef & def)
          g_curIdx = idx; g_curSeed = seed;
          if (statusFd >= 0) {char sb[64]; int n = snprintf(sb, sizeof(sb), "%020llu %020llu\n", (unsigned long long) idx, (unsigned long long) seed); (void) !pwrite(statusFd, sb, (size_t) n, 0);}
          SetCurOp("generate");
-         Plan p = pd->gen(seed);
          RunResult r; int crash = 0;
          if (pd->forkPerRun)
          {
-            if (RunOneForked(def, *pd, p, r, crash) == false)
+            if (RunOneForked(seed, NULL, r, crash) == false)
             {
                printf("CRASH %llu %llu %d %d\n", (unsigned long long) idx, (unsigned long long) seed, WIFEXITED(crash) ? WEXITSTATUS(crash) : -1, WIFSIGNALED(crash) ? WTERMSIG(crash) : 0);
                printf("AGG {\"runs\":%llu,\"nontrivial\":%llu,\"sim_us\":%llu,\"stats\":%s}\n", (unsigned long long) runs, (unsigned long long) nontrivial, (unsigned long long) simUs, agg.json().c_str());
@@ -279,7 +325,7 @@ int WorkerMain(int argc, char ** argv, const WorkerDef & def)
                _exit(5);
             }
          }
-         else RunOne(def, *pd, p, r);
+         else {Plan p = pd->gen(seed); RunOne(def, *pd, p, r);}
          runs++; if (r.nontrivial) nontrivial++; simUs += r.simMicros; agg.merge(r.stats);
          if ((hashesF)&&(r.nontrivial)&&(r.ok)) fwrite(&r.hash, sizeof(r.hash), 1, hashesF);
          if ((idxFile)||((hsample > 0)&&((idx % hsample) == 0)&&(hprinted < hmax))) {printf("H %llu %016llx\n", (unsigned long long) idx, (unsigned long long) r.hash); hprinted++;}
